@@ -10,6 +10,7 @@ import torch
 
 from core import Ctx, Violation, err_name, ints, line
 
+from . import c17_zoo as X
 from . import zoo_common as Z
 
 torch.set_num_threads(1)
@@ -73,7 +74,7 @@ def prepare(ctx: Ctx):
 def zoo():
     global _ZOO
     if _ZOO is None:
-        _ZOO = Z.zoo(thorough=_THOROUGH)
+        _ZOO = Z.zoo(thorough=_THOROUGH) + X.extra_zoo(thorough=_THOROUGH)
     return _ZOO
 
 
@@ -180,6 +181,7 @@ def _full_spec(e, m, n):
     hyper-parameters of `Z.trace_spec` plus the widths read from the instantiated layers; None: spatial trace only"""
     from torch import nn
 
+    m = getattr(m, "inner", m) if type(m).__name__ == "CallWith" else m
     op, groups, hooks, _std = Z.trace_spec(e, m)
     fam = e.name.split("/")[0]
 
@@ -349,7 +351,10 @@ def correspondence(ctx: Ctx):
         if e.kind not in ("den2d", "den3d", "gru"):
             continue
         m = model_of(e)
-        op, groups, hooks, std = Z.trace_spec(e, m)
+        try:
+            op, groups, hooks, std = Z.trace_spec(e, getattr(m, "inner", m) if type(m).__name__ == "CallWith" else m)
+        except KeyError:
+            continue                 # no shape program for this building block (initialisers): oracle only
         if std and std[0] not in seen_std:
             seen_std.add(std[0])
             kind = {"unet": 0, "mwcnn": 1, "didn": 2}[std[0]]
@@ -386,7 +391,7 @@ def correspondence(ctx: Ctx):
         if e.kind not in ("recon", "recon3d") or e.finding:
             continue
         m = model_of(e)
-        sch = Z.schedule(e, m)
+        sch = X.schedule(e, m)
         if sch is None:
             continue
         mods = sch[0]
@@ -401,6 +406,8 @@ def correspondence(ctx: Ctx):
         except Exception:  # noqa: BLE001 - unreadable forward: fall back to the hand-written schedule
             _mods, pre, body, iters = sch
             blocks = [v for b in list(pre) + list(body) * iters for v in b]
+        if "history" in e.tags:
+            blocks = blocks * 2          # the entry calls the model twice (second call continues from the first)
         for h, w in _size_sample(rng, e, ctx.budget(2, 8), lim=20):
             n, coils = rng.randint(1, 3), rng.randint(1, 5)
             z = rng.choice([2, 3]) if e.kind == "recon3d" else None
@@ -441,6 +448,30 @@ def _worker(args):
     return name, _oracle_entry(e, cases)
 
 
+_PRIMES = [2, 3, 5, 7, 11, 13, 17, 19, 23, 29, 31, 37, 41, 43, 47]
+
+
+def _class_sizes(rng, e, k, big):
+    """the size classes the property names, beyond the parity classes of `_size_sample`: 1 along an axis, prime x prime,
+    strongly non-square, larger than any size used by the repo's tests (<= 48 is the property's exhaustive range; a few
+    sizes above it are cheap and catch anything tied to a table of 'known' sizes)"""
+    cands = [(1, rng.choice([2, 9, 16, 31])), (rng.choice([2, 7, 16, 33]), 1), (1, 1),
+             (rng.choice(_PRIMES[3:]), rng.choice(_PRIMES[3:])), (rng.choice(_PRIMES), rng.choice(_PRIMES[6:])),
+             (rng.choice([3, 4, 5]), rng.choice([40, 45, 48])), (rng.choice([44, 47, 48]), rng.choice([3, 6, 7])),
+             (48, 48), (47, 48)]
+    if big:
+        cands += [(rng.choice([49, 57, 64]), rng.choice([50, 63, 72])), (rng.choice([80, 96, 101]), rng.choice([51, 65, 90]))]
+    adm = [s for s in cands if e.admissible(s[0], s[1], 3)]
+    rng.shuffle(adm)
+    # always keep a size-1 axis and a prime pair when the architecture admits them
+    first = [s for s in adm if 1 in s][:1] + [s for s in adm if s[0] in _PRIMES[3:] and s[1] in _PRIMES[3:]][:1]
+    out = []
+    for s in first + adm:
+        if s not in out:
+            out.append(s)
+    return out[:k]
+
+
 def _cases_for(ctx, e, deep):
     rng = ctx.rng
     cases = []
@@ -452,15 +483,28 @@ def _cases_for(ctx, e, deep):
                 sizes = [s for s in sizes if (s[0] + s[1]) % 3 == 0 or min(s) <= 6]      # budget (FFT in every conv): every third diagonal
         else:
             sizes = _size_sample(rng, e, 400 if e.kind == "recon" else 150, lim=49)
+        sizes = sizes + _class_sizes(rng, e, 11, big=e.kind != "recon3d")
     else:
         sizes = _size_sample(rng, e, 9 if e.kind in ("den2d", "gru") else 6)
+        sizes = sizes + [s for s in _class_sizes(rng, e, 4 if e.kind in ("den2d", "gru") else 3,
+                                                 big=e.kind in ("den2d", "gru")) if s not in sizes]
     for i, (h, w) in enumerate(sizes):
         z = None
         if e.kind in ("den3d", "recon3d"):
             z = rng.choice([1, 2, 3, 5])
+            if max(h, w) > 48:
+                continue
             if not e.admissible(h, w, z):
                 continue
         cases.append((1 + i % 3, 1 + (i * 7 + h) % 5, h, w, z, rng.randrange(2 ** 20)))
+    # batch 1 vs > 1 and a single coil, explicitly (the sensitivity refinement of the engines is skipped for one coil; coil
+    # reductions degenerate; `squeeze`-like bugs show only for batch 1)
+    if sizes and e.kind in ("recon", "recon3d"):
+        h, w = sizes[0] if len(sizes) < 3 else sizes[2]
+        z = rng.choice([2, 3]) if e.kind == "recon3d" else None
+        if e.admissible(h, w, z) and max(h, w) <= 48:
+            for n, coils in ((1, 1), (3, 1), (1, 5)):
+                cases.append((n, coils, h, w, z, rng.randrange(2 ** 20)))
     return cases
 
 
@@ -489,24 +533,32 @@ def oracle(ctx: Ctx, deep: bool = False):
                       bucket=f"oracle/{e.kind}/" + _bucket(h, w))
             if cat != "ok":
                 yield _violation(e, cat, detail, n, coils, h, w, z, seed)
-    # below the minimum the networks must fail loudly (never a wrong size): building blocks, small sizes
+    # below the minimum the networks must fail loudly (never a wrong size): every kind, small sizes
     for e in zoo():
-        if e.kind != "den2d" or e.finding:
+        if e.finding:
             continue
         m = model_of(e)
-        for h, w in itertools.product(range(1, 6), repeat=2):
-            if e.admissible(h, w):
+        if e.kind in ("den2d", "gru"):
+            grid = [(h, w, None) for h, w in itertools.product(range(1, 6), repeat=2)]
+        elif e.kind == "den3d":
+            grid = [(h, w, z) for z, h, w in itertools.product((1, 2, 4, 7), (1, 3, 4, 7), (1, 2, 5, 7))]
+        elif ctx.thorough or deep:
+            grid = [(h, w, 2 if e.kind == "recon3d" else None) for h, w in itertools.product(range(1, 6), repeat=2)]
+        else:
+            grid = [(h, w, 2 if e.kind == "recon3d" else None) for h, w in ((1, 1), (1, 4), (2, 2), (3, 2), (2, 5), (4, 4))]
+        for h, w, z in grid:
+            if e.admissible(h, w, z):
                 continue
-            cat, detail = _run_case(e, m, 1, 1, h, w, None, 0)
-            ctx.count((e.name, "below", h, w), True, bucket="oracle/below-min")
+            cat, detail = _run_case(e, m, 2 if e.kind in ("recon", "recon3d") else 1, 2, h, w, z, 0)
+            ctx.count((e.name, "below", h, w, z), True, bucket=f"oracle/below-min/{e.kind}")
             if cat in ("wrong-shape",):
-                yield _violation(e, cat, "below the architecture minimum: " + detail, 1, 1, h, w, None, 0)
+                yield _violation(e, cat, "below the architecture minimum: " + detail, 1, 2, h, w, z, 0)
 
 
 def replay(rep: dict) -> bool:
     if rep.get("op") != "forward":
         return True
-    e = next((x for x in Z.zoo(thorough=True) if x.name == rep["entry"]), None)
+    e = next((x for x in Z.zoo(thorough=True) + X.extra_zoo(thorough=True) if x.name == rep["entry"]), None)
     if e is None:
         return True
     cat, _detail = _run_case(e, model_of(e), rep["batch"], rep["coils"], rep["h"], rep["w"], rep.get("z"), rep.get("seed", 0))
